@@ -242,6 +242,110 @@ theorem restart_same (P : Params H) (w : World H) (g : Good P w) :
   refine ⟨e, ?_⟩
   rw [e, (g.live c hc hl).1, load_mkRows]
 
+/-! ### lock_view_matches_revision: the value returned by Lock / LockV2Contract, also after a hand-off -/
+
+/-- **v1.** What `Manager.Lock` + `ReviseContract` hand to a session — the persisted revision and the roots the
+updater starts from — belong together: the contract is not superseded, the roots are the persisted list, and
+the revision commits to them (size and Merkle root). -/
+theorem lock_view_matches_revision_v1 (P : Params H) (w : World H) (g : Good P w) (id : Nat)
+    (rev : Rev H) (roots : List Root) (h : lockViewV1 P w id = some (rev, roots)) :
+    ∃ c, findC w.db.contracts id = some c ∧ c.renewedTo = none ∧ rev = c.rev ∧ roots = load c.rows ∧
+      rev.filesize = P.sectorSize * roots.length ∧ rev.merkle = P.metaRoot roots := by
+  unfold lockViewV1 at h
+  by_cases hlk : lockV1 w P id = true
+  · obtain ⟨c, hc, hv, hl, _⟩ := lockV1_live P w g id hlk
+    simp only [hlk, if_true, hc, Option.some.injEq, Prod.mk.injEq] at h
+    obtain ⟨h1, h2⟩ := h
+    have hlive := g.live c (findC_some hc).1 hl
+    rw [(findC_some hc).2] at hlive
+    subst h1; subst h2
+    exact ⟨c, hc, hl, rfl, by rw [hlive.1, load_mkRows], hlive.2.1, hlive.2.2⟩
+  · simp [hlk] at h
+
+/-- **v2.** What `LockV2Contract` returns for a contract that is not renewed: Roots are the persisted list and
+Revision commits to them. -/
+theorem lock_view_matches_revision_v2 (P : Params H) (w : World H) (g : Good P w) (id : Nat) (heightOK : Bool)
+    (rev : Rev H) (revisable : Bool) (roots : List Root)
+    (h : lockViewV2 w id heightOK = some (rev, false, revisable, roots)) :
+    ∃ c, findC w.db.contracts id = some c ∧ c.renewedTo = none ∧ rev = c.rev ∧ roots = load c.rows ∧
+      revisable = heightOK ∧
+      rev.filesize = P.sectorSize * roots.length ∧ rev.merkle = P.metaRoot roots := by
+  unfold lockViewV2 at h
+  cases hc : findC w.db.contracts id with
+  | none => simp [hc] at h
+  | some c =>
+    simp only [hc] at h
+    by_cases hv : c.v2 = true
+    · simp only [hv, Bool.not_true, Bool.false_eq_true, if_false, Option.some.injEq, Prod.mk.injEq] at h
+      obtain ⟨h1, h2, h3, h4⟩ := h
+      have hl : c.renewedTo = none := by
+        cases hr : c.renewedTo with
+        | none => rfl
+        | some s => rw [hr] at h2; simp at h2
+      have hlive := g.live c (findC_some hc).1 hl
+      rw [(findC_some hc).2] at hlive
+      subst h1; subst h4
+      refine ⟨c, rfl, hl, rfl, by rw [hlive.1, load_mkRows], ?_, hlive.2.1, hlive.2.2⟩
+      rw [← h3]; simp [hl]
+    · simp [hv] at h
+
+/-- **Hand-off.** A caller queued behind a holder that revises the roots (any action batch or replacement), fails
+a revision, renews, or does anything else: the view the waiter receives is computed in the world the holder
+left, which is good again, so it matches the revision it comes with; and if the holder's operation was not
+accepted the waiter receives exactly what it would have received without waiting. -/
+theorem lock_view_after_handoff_v2 (P : Params H) (w : World H) (g : Good P w) (holder : Op H) (hop : OpOK P holder)
+    (id : Nat) (heightOK : Bool) :
+    Good P (handOff P w holder fun w' => lockViewV2 w' id heightOK).1 ∧
+    (∀ rev revisable roots,
+      (handOff P w holder fun w' => lockViewV2 w' id heightOK).2 = some (rev, false, revisable, roots) →
+      rev.filesize = P.sectorSize * roots.length ∧ rev.merkle = P.metaRoot roots ∧
+      ∃ c, findC (stepOp P w holder).1.db.contracts id = some c ∧ roots = load c.rows ∧ rev = c.rev) ∧
+    ((stepOp P w holder).2.1.accepted = false →
+      (handOff P w holder fun w' => lockViewV2 w' id heightOK).2 = lockViewV2 w id heightOK) := by
+  have g' := step_good P w g holder hop
+  refine ⟨g', ?_, ?_⟩
+  · intro rev revisable roots h
+    obtain ⟨c, hc, _, h1, h2, _, h3, h4⟩ := lock_view_matches_revision_v2 P _ g' id heightOK rev revisable roots h
+    exact ⟨h3, h4, c, hc, h2, h1⟩
+  · intro h
+    simp only [handOff]
+    rw [step_unchanged P w g holder hop h]
+
+theorem lock_view_after_handoff_v1 (P : Params H) (w : World H) (g : Good P w) (holder : Op H) (hop : OpOK P holder)
+    (id : Nat) :
+    Good P (handOff P w holder fun w' => lockViewV1 P w' id).1 ∧
+    (∀ rev roots,
+      (handOff P w holder fun w' => lockViewV1 P w' id).2 = some (rev, roots) →
+      rev.filesize = P.sectorSize * roots.length ∧ rev.merkle = P.metaRoot roots ∧
+      ∃ c, findC (stepOp P w holder).1.db.contracts id = some c ∧ roots = load c.rows ∧ rev = c.rev) ∧
+    ((stepOp P w holder).2.1.accepted = false →
+      (handOff P w holder fun w' => lockViewV1 P w' id).2 = lockViewV1 P w id) := by
+  have g' := step_good P w g holder hop
+  refine ⟨g', ?_, ?_⟩
+  · intro rev roots h
+    obtain ⟨c, hc, _, h1, h2, h3, h4⟩ := lock_view_matches_revision_v1 P _ g' id rev roots h
+    exact ⟨h3, h4, c, hc, h2, h1⟩
+  · intro h
+    simp only [handOff]
+    rw [step_unchanged P w g holder hop h]
+
+/-- After a holder's accepted v2 replacement the waiter is handed exactly the new list (not the one that was
+cached when it started to wait). -/
+theorem waiter_sees_new_roots_v2 (P : Params H) (w : World H) (g : Good P w) (id : Nat) (r : V2Revision H)
+    (nr : List Root) (fault : Option Nat) (heightOK : Bool)
+    (h : (stepOp P w (.rev2 id r nr fault)).2.1.accepted = true) :
+    (handOff P w (.rev2 id r nr fault) fun w' => lockViewV2 w' id heightOK).2 = some (r.rev, false, heightOK, nr) := by
+  have e := step_effect P w g (.rev2 id r nr fault) trivial
+  simp only [handOff]
+  generalize (stepOp P w (.rev2 id r nr fault)).1 = w' at e ⊢
+  generalize (stepOp P w (.rev2 id r nr fault)).2.1.accepted = a at e h
+  cases e with
+  | unchanged => cases h
+  | commit2 _ _ _ _ c hc hv hl hfs hmk hcap =>
+    have hf := findC_committed w id c hc r.rev nr
+    simp only [committed] at hf
+    simp [lockViewV2, committed, hf, hv, hl, cacheGet_set]
+
 /-! ### headline: the three lists coincide for every history -/
 
 /-- The list implied by the sequence of accepted modifications, per contract: computed from the outcomes
@@ -419,6 +523,10 @@ example : (stepOp P0 (run P0 World.empty (hist0.take 5)) (hist0[5]'(by decide)))
 example : (stepOp P0 (run P0 World.empty (hist0.take 7)) (hist0[7]'(by decide))).2.1 = .refused := by decide
 example : ((run P0 World.empty (hist0.take 7)).db.contracts.map fun c => (c.id, c.rows, c.rev.filesize, c.rev.merkle)) =
     [(1, [], 0, []), (2, [(0, 7), (1, 7)], 8, [7, 7])] := by decide
+example : lockViewV1 P0 (run P0 World.empty (hist0.take 5)) 1 =
+    some ({ number := 2, filesize := 8, capacity := 0, merkle := [7, 7] }, [7, 7]) := by decide
+example : (handOff P0 (run P0 World.empty (hist0.take 4)) (hist0[4]'(by decide)) fun w' => lockViewV1 P0 w' 1).2 =
+    some ({ number := 2, filesize := 8, capacity := 0, merkle := [7, 7] }, [7, 7]) := by decide
 example : updateV2Sectors [1, 2, 3] (mkRows 0 [1, 2, 3, 1]) [1, 2, 3, 1] [1, 3] = .ok (mkRows 0 [1, 3]) := by decide
 
 end Examples
